@@ -139,9 +139,9 @@ type quasiCase struct {
 	Site          string `json:"site,omitempty"`
 	Expansion     any    `json:"expansion,omitempty"`
 	CallOut       any    `json:"callout,omitempty"`
-	CallFx        []any  `json:"callfx,omitempty"`
+	CallFx        []any  `json:"callfx"`
 	HandOut       any    `json:"handout,omitempty"`
-	HandFx        []any  `json:"handfx,omitempty"`
+	HandFx        []any  `json:"handfx"`
 	HandText      string `json:"handtext,omitempty"`
 	DepthsBefore  []int  `json:"depthsBefore,omitempty"`
 	DepthsAfter   []int  `json:"depthsAfter,omitempty"`
@@ -197,7 +197,7 @@ func runTemplate(se *semEnv, id string, t tmpl) quasiCase {
 	} else {
 		out = projOutcome(se.env, o)
 	}
-	return quasiCase{ID: id, Kind: "template", Tmpl: t, Text: text, Binds: bindsJSON(), Out: out}
+	return quasiCase{ID: id, Kind: "template", Tmpl: t, Text: text, Binds: bindsJSON(), Out: out, CallFx: []any{}, HandFx: []any{}}
 }
 
 func leafTemplates() []tmpl {
@@ -235,6 +235,8 @@ func macroTemplates() []tmpl {
 		tSeq("list", sym("cond"), tUnq("p"), tSeq("list", sym("list"), tSplice("q")), tAtom([]any{"int", 0})),
 		tSeq("list", sym("def"), sym("viaMacro"), tUnq("p")),
 		tSeq("list", sym("list"), tSeq("list", sym("quote"), tUnq("p")), tSplice("q")),
+		tSeq("list", sym("cond"), tUnq("p"), tSeq("list", sym("break")), tSeq("list", sym("list"), tSplice("q"))),
+		tSeq("list", sym("cond"), tUnq("p"), tSeq("list", sym("continue")), tSeq("list", sym("list"), tSplice("q"))),
 	}
 }
 
@@ -243,7 +245,7 @@ func runMacro(id string, mi int, t tmpl, site string) quasiCase {
 	pform := []any{"list", []any{[]any{"sym", "tr"}, []any{"int", 1}, []any{"list", []any{[]any{"sym", "+"}, []any{"int", 1}, []any{"int", 2}}}}}
 	qform := []any{"list", []any{[]any{"list", []any{[]any{"sym", "tr"}, []any{"int", 2}, []any{"int", 3}}}, []any{"int", 4}}}
 	binds := []any{[]any{"p", pform}, []any{"q", qform}}
-	c := quasiCase{ID: id, Kind: "macro", Tmpl: t, Binds: binds, Site: site}
+	c := quasiCase{ID: id, Kind: "macro", Tmpl: t, Binds: binds, Site: site, CallFx: []any{}, HandFx: []any{}}
 	mname := fmt.Sprintf("m%d", mi)
 	defText := fmt.Sprintf("(defmac %s [p q] ^%s)\n", mname, renderTmpl(t))
 	if o := evalSafe(se.env, defText); o.Kind != "val" {
@@ -294,6 +296,9 @@ func runMacro(id string, mi int, t tmpl, site string) quasiCase {
 			return "(def acc [])\n(for [(def i 0) (< i 2) (def i (+ i 1))] (set acc (append acc " + form + ")))\nacc\n"
 		case "let":
 			return "(let [z 100 q 200] " + form + ")\n"
+		case "loop-let":
+			// a jump in the expansion must pop the scopes opened between the loop and the call site
+			return "(def z 1000)\n(def acc [])\n(for [(def i 0) (< i 3) (def i (+ i 1))] (newScope (let [z i] " + form + " (set acc (append acc z)))))\n(list acc z)\n"
 		case "outer-macro":
 			return form + "\n"
 		}
@@ -312,7 +317,7 @@ func runMacro(id string, mi int, t tmpl, site string) quasiCase {
 	run := func(text string) (any, []any) {
 		s2 := quasiEnv()
 		if o := evalSafe(s2.env, defText); o.Kind != "val" {
-			return []any{"deffail"}, nil
+			return []any{"deffail"}, []any{}
 		}
 		if site == "outer-macro" {
 			evalSafe(s2.env, fmt.Sprintf("(defmac outer%d [a] ^(%s ~a %s))\n", mi, mname, renderValue(qform)))
@@ -419,7 +424,7 @@ func init() {
 		}
 		// macros x call sites
 		for mi, t := range macroTemplates() {
-			for _, site := range []string{"top", "function", "loop", "let", "outer-macro"} {
+			for _, site := range []string{"top", "function", "loop", "let", "loop-let", "outer-macro"} {
 				if c.mine(idx) {
 					w.write(runMacro(fmt.Sprintf("mac-%d-%s", mi, site), mi, t, site))
 				}
